@@ -155,6 +155,7 @@ class Stats(object):
         self.cuts = {}
         self.model_hits = 0
         self.canon_slices = 0
+        self.distinct_queries = set()
 
 
 class Interp(object):
@@ -221,6 +222,12 @@ class Interp(object):
             st.max_query = dt
         if r == "unknown":
             st.unknown += 1
+        for e in extra:
+            if not isinstance(e, bool):
+                try:
+                    st.distinct_queries.add((e.hash(), len(self.pc)))
+                except Exception:
+                    pass
         if TRACE:
             sys.stderr.write("[psx] query #%d depth=%d pos=%d %s %.3fs\n" % (st.solver_calls, self.depth, self.pos, r, dt))
             if dt > 2:
@@ -777,11 +784,30 @@ class Interp(object):
         if isinstance(a, dict) and isinstance(b, dict):
             if len(a) != len(b):
                 return False
-            parts = []
-            for k in a:
-                if k not in b:
-                    return False
-                parts.append(self.eq(a[k], b[k]))
+            SK = self.models.SymKey
+            if any(isinstance(k, SK) for k in a) or any(isinstance(k, SK) for k in b):
+                # keys with symbolic text: every key of a has a partner in b with equal text and equal value
+                # (keys of one dict are pairwise different, so equal sizes make this a bijection)
+                parts = []
+                for ka in a:
+                    alts = []
+                    for kb in b:
+                        ke = self.eq(ka, kb)
+                        if ke is False:
+                            continue
+                        ve = self.eq(a[ka], b[kb])
+                        if ve is False:
+                            continue
+                        alts.append(And(bterm(ke), bterm(ve)))
+                    if not alts:
+                        return False
+                    parts.append(mkbool(Or(*alts)))
+            else:
+                parts = []
+                for k in a:
+                    if k not in b:
+                        return False
+                    parts.append(self.eq(a[k], b[k]))
         elif isinstance(a, (list, tuple)) and isinstance(b, (list, tuple)) and isinstance(a, list) == isinstance(b, list):
             if len(a) != len(b):
                 return False
@@ -812,6 +838,10 @@ class Interp(object):
 
     def order(self, op, a, b):
         """a < b etc."""
+        if isinstance(a, self.models.SymKey):
+            a = a.s
+        if isinstance(b, self.models.SymKey):
+            b = b.s
         sa, sb = isinstance(a, SYM), isinstance(b, SYM)
         if not sa and not sb:
             if isinstance(a, (tuple, list)) and isinstance(b, (tuple, list)) and type(a) is type(b) and \
